@@ -3,6 +3,7 @@ import Proofs.C07Draw
 import Proofs.TieBasis
 import Proofs.DeclBasis
 import Proofs.TieLoopTail
+import Proofs.TieInnerStep
 #print axioms PV.Proofs.C19.sample_bound
 #print axioms PV.Proofs.C19.clamp_contracts
 #print axioms PV.Proofs.C19.step_ratio_le_one
@@ -36,3 +37,5 @@ import Proofs.TieLoopTail
 #print axioms PV.Proofs.Tie.declared_translated_looptail
 #print axioms PV.Proofs.Tie.loop_tail_tie
 #print axioms PV.Proofs.Tie.loop_tail_frame
+#print axioms PV.Proofs.Tie.declared_translated_innerstep
+#print axioms PV.Proofs.Tie.inner_step_tie
